@@ -305,6 +305,16 @@ st_stop(Storage* s)
         return DeviceState_AwaitingConfiguration;
     if (!i->started)
         lc_fail(i, "stop-without-start", "stop called on a storage device that is not started");
+    if (hub.store_script[i->idx].stop_yields) {
+        int serial = i->serial;
+        clock_sleep_ms(nullptr, 5.0f); // finalising a file takes time: other threads run while the device stops
+        i = enter(s, "storage.stop (while it was stopping)");
+        if (!i)
+            return DeviceState_AwaitingConfiguration;
+        (void)serial;
+        if (!i->started)
+            lc_fail(i, "stop-without-start", "a second stop reached the storage device while its first stop was still in progress");
+    }
     i->started = false;
     i->stops++;
     i->stopped_run[i->run] = true;
